@@ -1,7 +1,7 @@
 """C04 - bounded exploration of the real controller (see checks/ctrlx.py) plus proved per-function obligations."""
 from checks import common, ctrl_common
 
-PROVED_TARGETS = ['cascade.controller.notify:consider_purge', 'cascade.controller.notify:consider_fetch']
+PROVED_TARGETS = ['cascade.controller.notify:consider_purge', 'cascade.controller.notify:consider_fetch', 'cascade.controller.notify:is_last_output_of']
 
 
 def run(tier, seed):
